@@ -10,7 +10,7 @@ import (
 // administrator every entry point of the world delivers the marked media of the
 // requested stream, and without credentials none does.
 func TestWorldServesAuthorizedCallers(t *testing.T) {
-	sh := newShard(t, 90)
+	sh := newShard(t, 900)
 	tok := sh.rootToken(t)
 	good := httpCred{Token: tok, HasToken: true}
 	p := sh.live[0]
@@ -61,6 +61,30 @@ func TestWorldServesAuthorizedCallers(t *testing.T) {
 	c.Close()
 	if _, err := rtspc.DialWS(sh.s.WS(p), ioBound, nil); err == nil {
 		t.Fatalf("ws-rtsp anonymous handshake accepted")
+	}
+	// WSP: control + data channel of the same caller
+	ctl, ch, err := sh.wspControl(p, good)
+	if err != nil {
+		t.Fatalf("wsp control: %v", err)
+	}
+	data, _, err := sh.wspDial("data", p, good)
+	if err != nil {
+		t.Fatalf("wsp data: %v", err)
+	}
+	if code, _, _, err := data.call("JOIN", map[string]string{"channel": ch}, ""); err != nil || code != 200 {
+		t.Fatalf("wsp JOIN: %d %v", code, err)
+	}
+	rd := wspData(data)
+	if st, ok := sh.wspPlay(ctl, p); !ok {
+		t.Fatalf("wsp play: %v", st)
+	}
+	if mk := markersIn(sh.awaitMedia(rd)); len(mk) != 1 || mk[0] != p {
+		t.Fatalf("wsp media: %v", mk)
+	}
+	data.close()
+	ctl.close()
+	if _, st, err := sh.wspDial("control", p, httpCred{}); err == nil || st == 101 {
+		t.Fatalf("wsp anonymous handshake accepted")
 	}
 	// publish on a fresh path and over a live one
 	for _, pp := range []string{sh.fresh[0], sh.live[1]} {
